@@ -35,6 +35,8 @@ def _tasks(tier):
         s = t["shape"]
         if t["gen"] == "chain":
             c = sum(a(s) ** k for k in t["lens"]) / (t["slice"][0] * 2 if t.get("slice") else 1)
+        elif t["gen"] == "nested":
+            c = 10 * a(s) ** 2 / (t["slice"][0] * 2 if t.get("slice") else 1)
         elif t["gen"] == "bare":
             c = a(s)
         elif t["gen"] == "den":
@@ -49,8 +51,8 @@ def _tasks(tier):
     if thorough:
         add("chain.vec.depth3.len3", sum(a(s) ** 3 for s in deep), [dict(gen="chain", shape=s, kind="vec", lens=[3]) for s in deep])
     else:
-        add("chain.vec.depth3.len3", sum(a(s) ** 3 for s in deep), [dict(gen="chain", shape=s, kind="vec", lens=[3], slice=[12, sd % 12]) for s in deep],
-            note=f"slice: Shared sources restricted to leaves, every 12th chain (residue VERIF_SEED % 12 = {sd % 12})")
+        add("chain.vec.depth3.len3", sum(a(s) ** 3 for s in deep), [dict(gen="chain", shape=s, kind="vec", lens=[3], slice=[16, sd % 16]) for s in deep],
+            note=f"slice: Shared sources restricted to leaves, every 16th chain (residue VERIF_SEED % 16 = {sd % 16})")
 
     # ---- B/C/D. scalar leaves (float32 scalars, Python floats): value rotations x bound-pair rotations ---------
     rots = list(range(6)) if thorough else [sd % 6, (sd + 3) % 6]
@@ -70,6 +72,30 @@ def _tasks(tier):
     add("den.vec", len(s3), [dict(gen="den", shape=s, kind="vec") for s in s3])
     for kind in ("f32", "py"):
         add(f"den.{kind}", 15 * len(s3), [dict(gen="den", shape=s, kind=kind, prots=prots) for s in s3], note="complete" if thorough else f"slice: bound rotations {prots}")
+
+    # ---- F. nested chains: a chain (two members, every ordered pair of the alphabet) as a member of a chain ----
+    nest_sz = lambda shp: sum(10 * a(s) ** 2 for s in shp)  # noqa  10 outer forms, see vf.c17_ref.nested_chains
+    add("nested.vec.depth<=2", nest_sz(s2), [dict(gen="nested", shape=s, kind="vec") for s in s2])
+    if thorough:
+        add("nested.vec.depth3", nest_sz(deep), [dict(gen="nested", shape=s, kind="vec") for s in deep])
+    else:
+        add("nested.vec.depth3", nest_sz(deep), [dict(gen="nested", shape=s, kind="vec", slice=[24, sd % 24]) for s in deep],
+            note=f"slice: Shared sources restricted to leaves, every 24th nested chain (residue VERIF_SEED % 24 = {sd % 24})")
+    nprots = [0, 5, 10]
+    full_n = sum(6 * (len(nprots) if R.has_den(ch) else 1) for s in s2 for ch in R.nested_chains(s, True))
+    for kind in ("f32", "py"):
+        if thorough:
+            add(f"nested.{kind}.depth<=2", full_n, [dict(gen="nested", shape=s, kind=kind, rots=list(range(6)), prots=nprots) for s in s2])
+        else:
+            add(f"nested.{kind}.depth<=2", full_n, [dict(gen="nested", shape=s, kind=kind, rots=[sd % 6], prots=[nprots[sd % 3]]) for s in s2],
+                note=f"slice: value rotation {sd % 6}, bound rotation {nprots[sd % 3]}")
+
+    # ---- G. Denormalize with very narrow bounds (max - min < 2e-6, see vf.c17_ref.NARROW): grid + round trip ------
+    add("den.narrow.vec", len(s3), [dict(gen="den", shape=s, kind="vec", narrow=True) for s in s3])
+    for kind in ("f32", "py"):
+        np_ = [0, 1, 2] if thorough else [sd % 3]
+        add(f"den.narrow.{kind}", 3 * len(s3), [dict(gen="den", shape=s, kind=kind, narrow=True, prots=np_) for s in s3],
+            note="complete" if thorough else f"slice: narrow-pair rotation {np_}")
 
     # ---- E. Extend: every base tree x every mask; alone and inside chains with Denormalize / Exponential ------
     npairs = sum(len(R.masks(s)) for s in s3)
@@ -113,7 +139,10 @@ def run(tier, rep):
                 cases_run=tot["cases"], cases_skipped_denormalize_on_leafless_tree=tot["den_on_leafless"],
                 chains_apply_only_because_a_shared_slot_is_occupied=tot["shared_slot_occupied"],
                 elements_compared=tot["elements"], elements_not_demanded_overflow_or_outside_domain=tot["skipped_elements"],
-                chains_len_ge2_where_reversed_order_gives_a_different_result=tot["order_sensitive"])
+                chains_len_ge2_where_reversed_order_gives_a_different_result=tot["order_sensitive"],
+                nested_chains_round_trip_checked=tot["nested"],
+                nested_chains_where_first_to_last_inversion_of_the_inner_chain_gives_a_different_result=tot["nested_inner_inv_order_sensitive"],
+                narrow_bound_pairs=R.NARROW)
     rep.section("families", **fam)
     rep.section("observations_not_part_of_the_property", **dict(obs))
     for t in (tasks[0], tasks[len(tasks) // 2], tasks[-1]):
